@@ -1,3 +1,4 @@
+pub mod crash;
 pub mod history;
 pub mod oneshot;
 
@@ -12,6 +13,7 @@ use std::path::Path;
 pub fn all() -> Vec<Box<dyn Property>> {
     let mut v = oneshot::all();
     v.extend(history::all());
+    v.push(Box::new(crash::C05));
     v
 }
 
